@@ -46,6 +46,8 @@ class GenericGen:
         self.assum: dict[str, dict] = {}
 
     def sym(self, name: str, **assumptions):
+        if os.environ.get("VERIF_PLAIN_SYMBOLS") == "1" and not any(assumptions.get(k) for k in ("positive", "negative", "nonnegative", "integer")):
+            assumptions.setdefault("real", None)   # experiment: plain symbols, as a user's symbols("x") gives
         assumptions.setdefault("real", True)
         self.names.append(name)
         self.assum[name] = dict(assumptions)
@@ -461,19 +463,40 @@ def replay_law(replay_ref: str, law_name: str, shape, pt):
 
 
 def _worker(args):
-    modname, law_name, shape, pid = args
+    modname, law_name, shape, pid = args[:4]
+    plain = len(args) > 4 and args[4]
     import importlib
     mod = importlib.import_module(modname)
     law = next(l for l in mod.laws() if l.name == law_name)
     try:
-        return discharge(law, shape, pid, modname)
+        if not plain:
+            return discharge(law, shape, pid, modname)
+        # second pass with PLAIN symbols (no `real` assumption, what symbols("x") gives a user): SymPy simplifies differently there
+        # (sqrt(x**2) stays a root instead of becoming |x|), and code that is only right for real-declared symbols shows up
+        os.environ["VERIF_PLAIN_SYMBOLS"] = "1"
+        try:
+            ob = discharge(law, shape, pid, modname)
+        finally:
+            os.environ.pop("VERIF_PLAIN_SYMBOLS", None)
+        ob.name += "/plain-symbols"
+        if ob.verdict == REFUTED and not (ob.replay or {}).get("reproduced"):
+            # the SMT translation reads every symbol as a real number: without a reproduced failing input this is not a verdict
+            ob.verdict, ob.detail = UNKNOWN, "plain-symbol pass: refutation without a reproduced input (not a verdict) | " + ob.detail
+        elif ob.verdict == REFUTED and ob.replay.get("script"):
+            ob.replay["script"] = "import os; os.environ['VERIF_PLAIN_SYMBOLS'] = '1'\n" + ob.replay["script"]
+        return ob
     except Exception as e:
-        return Ob(f"{pid}/{law_name}/shape{_shape_str(shape)}", FAULT, "symx", 0.0,
+        return Ob(f"{pid}/{law_name}/shape{_shape_str(shape)}" + ("/plain-symbols" if plain else ""), FAULT, "symx", 0.0,
                   f"{type(e).__name__}: {e}\n{traceback.format_exc()[-800:]}")
 
 
-def run_laws(report, modname: str, laws: Sequence[Law], pid: str, jobs: Optional[int] = None):
+def run_laws(report, modname: str, laws: Sequence[Law], pid: str, jobs: Optional[int] = None, plain: Optional[str] = "thorough"):
+    """plain: None | 'quick' | 'thorough' -- from which tier on every clause is discharged a second time on plain symbols"""
     tasks = [(modname, l.name, s, pid) for l in laws for s in l.shapes]
+    tier = os.environ.get("VERIF_TIER", "quick")
+    if plain == "quick" or (plain == "thorough" and tier == "thorough"):
+        tasks += [(modname, l.name, s, pid, True) for l in laws for s in l.shapes]
+        report.extra["plain_symbol_pass"] = "every clause discharged a second time on symbols without the `real` assumption"
     jobs = jobs or min(16, os.cpu_count() or 4)
     if len(tasks) < 8 or jobs <= 1:
         res = [_worker(t) for t in tasks]
